@@ -393,7 +393,14 @@ int main(int argc, char** argv){
         Measure ms;
         g_pg = &pg;
         unsigned long ord = 0;
+#ifdef VF_NUM_LIGHT
+#define VF_FULL(...)
+        // sanitizer build (C15): the smallest order only, heights <= 3
+        const int maxH = 3;
+#else
+#define VF_FULL(...) __VA_ARGS__
         const int maxH = thorough ? 6 : 5;
+#endif
         auto mine = [&](){ return (ord++) % args.nbSlices == args.slice; };
 #ifdef VF_C04
         rep.spaces.push_back("rotation kernel: P in {4,8" + std::string(thorough ? ",6,12" : "") + "} x heights 1.." + std::to_string(maxH) + " x boxes {unit, shifted-3.7, small-far} x 4 particle sets x {double" + (thorough ? ",float" : "") + "} x groupings x {sequential, OpenMP under defer-all schedules (mock runtime)} + linearity");
@@ -401,13 +408,13 @@ int main(int argc, char** argv){
             if(rep.timeUp()){ rep.cut(); return; }
             if(!mine()) continue;
             evalConfig<double, K4<double,4>, 4>(h, b, s, rep, pg, thorough, ms);
-            if(thorough) evalConfig<double, K4<double,6>, 6>(h, b, s, rep, pg, thorough, ms);
-            evalConfig<double, K4<double,8>, 8>(h, b, s, rep, pg, thorough, ms);
-            if(thorough){
+            VF_FULL(if(thorough) evalConfig<double, K4<double,6>, 6>(h, b, s, rep, pg, thorough, ms);)
+            VF_FULL(evalConfig<double, K4<double,8>, 8>(h, b, s, rep, pg, thorough, ms);)
+            VF_FULL(if(thorough){
                 evalConfig<double, K4<double,12>, 12>(h, b, s, rep, pg, thorough, ms);
                 if(b < 2) evalConfig<float, K4<float,4>, 4>(h, b, s, rep, pg, thorough, ms);
                 if(b < 2) evalConfig<float, K4<float,8>, 8>(h, b, s, rep, pg, thorough, ms);
-            }
+            })
             ms.checkMonotone(rep);
         }
         // periodic variant (explicit image sum) and target/source variant
@@ -415,13 +422,13 @@ int main(int argc, char** argv){
             if(rep.timeUp()){ rep.cut(); return; }
             if(!mine()) continue;
             evalPeriodicNum<double, K4<double,4>, 4>(h, b, s, extra, rep, pg, ms);
-            evalPeriodicNum<double, K4<double,8>, 8>(h, b, s, extra, rep, pg, ms);
+            VF_FULL(evalPeriodicNum<double, K4<double,8>, 8>(h, b, s, extra, rep, pg, ms);)
         }
         for(int h = 1 ; h <= maxH ; ++h) for(int b = 0 ; b < 2 ; ++b) for(int s = 0 ; s < 3 ; ++s){
             if(rep.timeUp()){ rep.cut(); return; }
             if(!mine()) continue;
             evalTsmNum<double, K4<double,4>, 4>(h, b, s, (s+1)%4, rep, pg, ms);
-            evalTsmNum<double, K4<double,8>, 8>(h, b, s, (s+2)%4, rep, pg, ms);
+            VF_FULL(evalTsmNum<double, K4<double,8>, 8>(h, b, s, (s+2)%4, rep, pg, ms);)
         }
 #endif
 #ifdef VF_C05
@@ -429,29 +436,29 @@ int main(int argc, char** argv){
         for(int h = 1 ; h <= maxH ; ++h) for(int b = 0 ; b < 3 ; ++b) for(int s = 0 ; s < 5 ; ++s){
             if(rep.timeUp()){ rep.cut(); return; }
             if(!mine()) continue;
-            if(thorough) evalConfig<double, K5<double,3>, 3>(h, b, s, rep, pg, thorough, ms);
+            VF_FULL(if(thorough) evalConfig<double, K5<double,3>, 3>(h, b, s, rep, pg, thorough, ms);)
             evalConfig<double, K5<double,4>, 4>(h, b, s, rep, pg, thorough, ms);
-            if(thorough || b < 2) evalConfig<double, K5<double,5>, 5>(h, b, s, rep, pg, thorough, ms);      // an odd order in the quick tier too
-            evalConfig<double, K5<double,6>, 6>(h, b, s, rep, pg, thorough, ms);
-            if(thorough){
+            VF_FULL(if(thorough || b < 2) evalConfig<double, K5<double,5>, 5>(h, b, s, rep, pg, thorough, ms);)      // an odd order in the quick tier too
+            VF_FULL(evalConfig<double, K5<double,6>, 6>(h, b, s, rep, pg, thorough, ms);)
+            VF_FULL(if(thorough){
                 evalConfig<double, K5<double,7>, 7>(h, b, s, rep, pg, thorough, ms);
                 evalConfig<double, K5<double,8>, 8>(h, b, s, rep, pg, thorough, ms);
                 if(b < 2) evalConfig<float, K5<float,4>, 4>(h, b, s, rep, pg, thorough, ms);
                 if(b < 2) evalConfig<float, K5<float,6>, 6>(h, b, s, rep, pg, thorough, ms);
-            }
+            })
             ms.checkMonotone(rep);
         }
         for(int h = 2 ; h <= (thorough ? 4 : 3) ; ++h) for(int b = 0 ; b < 2 ; ++b) for(int s = 1 ; s <= 3 ; ++s) for(long extra = -1 ; extra <= (thorough ? 2 : 1) ; ++extra){
             if(rep.timeUp()){ rep.cut(); return; }
             if(!mine()) continue;
             evalPeriodicNum<double, K5<double,4>, 4>(h, b, s, extra, rep, pg, ms);
-            evalPeriodicNum<double, K5<double,6>, 6>(h, b, s, extra, rep, pg, ms);
+            VF_FULL(evalPeriodicNum<double, K5<double,6>, 6>(h, b, s, extra, rep, pg, ms);)
         }
         for(int h = 1 ; h <= maxH ; ++h) for(int b = 0 ; b < 2 ; ++b) for(int s = 0 ; s < 3 ; ++s){
             if(rep.timeUp()){ rep.cut(); return; }
             if(!mine()) continue;
             evalTsmNum<double, K5<double,4>, 4>(h, b, s, (s+1)%4, rep, pg, ms);
-            evalTsmNum<double, K5<double,6>, 6>(h, b, s, (s+2)%4, rep, pg, ms);
+            VF_FULL(evalTsmNum<double, K5<double,6>, 6>(h, b, s, (s+2)%4, rep, pg, ms);)
         }
 #endif
         for(const auto& kv : ms.worstPot) rep.counters["max_err_pot_1e-9 " + kv.first] = (unsigned long)(kv.second * 1e9L);
